@@ -136,8 +136,16 @@ check("C19", "fault_enumeration",
       "x 9 option sets that copy or write. The real front end (load_settings, parse_arguments, main) runs in-process under a sys.addaudithook hook that records every "
       "file-system-mutating operation and, for the fault runs, fails the k-th one with OSError for EVERY k = 1..N. Oracle: all mutating events inside the resolved output/graph "
       "directories; hash+mode snapshot of everything else unchanged after the run (failed or not); refusal before the first mutating event when a source directory lies in the output directory.",
-      "Trusted: the audit-hook event classification and the snapshot in checks/c19.py; interpreter byte-code writes are excluded; inline graphs use a stubbed dot. One harmless attempted mkdir (project-level copy_subdir) is a listed known finding.",
+      "Trusted: the audit-hook event classification and the snapshot in checks/c19.py; interpreter byte-code writes are excluded; inline graphs use a stubbed dot.",
       "exhaustive fault injection at every mutating file-system event (audit hook) + outside-tree snapshot oracle", "DESIGN.md 5/C19")
+
+check("C17", "model_checking",
+      "ALL directory trees with <= 3 (thorough 4, plus 5 over the shaping kinds) entries over 7 entry kinds (titled / untitled page, directory with / without index.md, "
+      "other file, hidden file, backup), names assigned by position so every alphabetical interleaving occurs, x ordered_subpage {absent, reversed, partial, missing entry} x "
+      "copy_subdir {absent, page-level, project-level, empty override}. Each tree is built to a site by the real pipeline; a reference mirror computed from the abstract tree "
+      "gives the expected page set, copied files and order of every navigation list; every page carries relative, |page|, |url|, |media| and [[...]] links that the link resolver checks from every depth.",
+      "Trusted: the reference mirror in checks/c17.py and the link resolver. A missing ordered_subpage entry is expected to abort with a message naming it.",
+      "exhaustive enumeration of small directory trees against a reference mirror + link resolver", "DESIGN.md 5/C17")
 
 ALL = [f"C{i:02d}" for i in range(1, 21)]
 PENDING_REASON = "check not built yet in this round (planned: see DESIGN.md section 5); will be claimed once its exhaustive check exists"
